@@ -541,10 +541,73 @@ def ref_override_full(term, kind):
     return go(term)
 
 
+SUBCLASS_FILTERS = [
+    "title eq 'A1' and tags/any(t: t/label eq 'B2')",
+    "comments/all(c: c/text ne 'C3' or contains(c/text, 'D4')) or title eq 'E5'",
+    "tags/any(t: t/posts/any(p: p/title eq 'F6' and p/comments/any(c: c/text eq 'G7'))) and title ne 'H8'",
+    "author/name eq 'I9' and author/posts/any(p: startswith(p/title, 'J0'))",
+    "title in ('K1', 'L2') and comments/any(c: c/text in ('M3', 'N4'))",
+]
+
+
+def judge_subclassed_shipped(ctx):
+    """A subclass of a shipped visitor with its own constructor and ONE overridden handler:
+    the handler sees every node of its kind the visitor translates - also the ones inside
+    any()/all() bodies, for which the ORM visitors build further visitor objects."""
+    from ..envs import django_env, sqla_env
+    from odata_query.django.django_q import AstToDjangoQVisitor
+    from odata_query.sqlalchemy.orm import AstToSqlAlchemyOrmVisitor
+    from odata_query.sql.sqlite import AstToSqliteSqlVisitor
+    from odata_query.roundtrip import AstToODataVisitor
+    M = django_env.models()
+    bases = {"sqlalchemy-orm": (AstToSqlAlchemyOrmVisitor, lambda c: c(sqla_env.Post, fold_case=True)),
+             "django": (AstToDjangoQVisitor, lambda c: c(M.Post, fold_case=True)),
+             "roundtrip": (AstToODataVisitor, lambda c: c(fold_case=True)),
+             "sql-sqlite": (AstToSqliteSqlVisitor, lambda c: c(fold_case=True))}
+    for bname, (base, make) in bases.items():
+        for text in SUBCLASS_FILTERS:
+            o = drive.parse_ast(text)
+            if o[0] != "ok":
+                continue
+            node = o[1]
+            want = [n.val for n in ref_preorder(node, []) if type(n).__name__ == "String"]
+            seen = []
+
+            def __init__(self, *a, fold_case=False, **kw):
+                base.__init__(self, *a, **kw)
+                self.fold_case = fold_case
+
+            def visit_String(self, n, _seen=seen):
+                _seen.append(n.val)
+                return base.visit_String(self, n)
+            cls = type("Configurable_" + bname.replace("-", "_"), (base,),
+                       {"__init__": __init__, "visit_String": visit_String})
+            ctx.count("evaluations")
+            ctx.count("subclassed_shipped_visitors")
+            ctx.seen(["subclass", bname, text])
+            try:
+                make(cls).visit(node)
+            except Exception as ex:
+                if bname in ("sql-sqlite",):
+                    continue        # paths / lambdas are refused by the SQL dialects
+                ctx.fail({"text": text, "visitor": bname}, "a subclass of a shipped visitor (own constructor, "
+                         "one overridden handler) fails where the visitor itself translates",
+                         observed=repr(ex)[:200], cls="subclass-shipped", sig=["sub-exc", bname])
+                continue
+            if sorted(seen) != sorted(want):
+                ctx.fail({"text": text, "visitor": bname},
+                         "the overridden handler of a subclassed shipped visitor was not called for exactly "
+                         "the nodes of its kind", expected=want, observed=seen, cls="subclass-shipped",
+                         sig=["sub", bname])
+        ctx.cls("subclassed:" + bname)
+
+
 def run(ctx):
     contracts.install_parse()
     contracts.install_visit_trace()
     shipped.setup()
+    if ctx.shard == 0:
+        judge_subclassed_shipped(ctx)
     rng = ctx.rng("c16")
     o = fullgen.Opts()
     maxd = ctx.pick(5, 7)
